@@ -41,11 +41,18 @@ OWNERS = {
     ("JanetQueue", "data"): {"ev.c": "owner (janet_q_*)"},
     ("JanetQueue", "head"): {"ev.c": "owner (janet_q_*)"},
     ("JanetQueue", "tail"): {"ev.c": "owner (janet_q_*)"},
+    # a struct's bucket count is a function of the pair count it was begun with: equality, hashing and ordering of
+    # structs all read both, so a finished struct never has its length corrected in place - it is rebuilt
+    ("JanetStructHead", "length"): {"struct.c": "janet_struct_begin sizes the bucket array from it"},
+    ("JanetStructHead", "capacity"): {"struct.c": "janet_struct_begin sizes the bucket array from it"},
+    ("JanetTupleHead", "length"): {"tuple.c": "janet_tuple_begin sizes the allocation from it"},
 }
 OWNER_FUNCS = {
     "io.c": {"cfun_io_printf_impl_x"},
     "ev.c": {"janet_q_init", "janet_q_maybe_resize", "janet_q_pop", "janet_q_push", "janet_q_push_head"},
     "gc.c": {"janet_sweep"},
+    "struct.c": {"janet_struct_begin"},
+    "tuple.c": {"janet_tuple_begin"},
 }
 
 GROW_FUNCS = ("janet_array_ensure", "janet_array_push", "janet_array_setcount", "janet_buffer_ensure",
@@ -176,9 +183,10 @@ def _owner_rule(chk, prog):
                 chk.ok(rule, "%s.%s written in %s:%s (%s)" % (key[0], key[1], unit, fn.name, allowed[unit]))
             else:
                 chk.violation(rule, unit, fn.name, "%s.%s" % key, n.loc,
-                              "`%s` writes %s.%s outside its owner module(s) %s: the container's invariants "
-                              "(count <= capacity, data sized by capacity) are maintained only there" % (
-                                  n.text()[:60], key[0], key[1], sorted(allowed)))
+                              "`%s` writes %s.%s outside its owner %s: the container's invariants "
+                              "(count <= capacity, storage sized by capacity / length) are maintained only there" % (
+                                  n.text()[:60], key[0], key[1],
+                                  "function(s) %s" % sorted(OWNER_FUNCS[unit]) if unit in allowed else "module(s) %s" % sorted(allowed)))
     chk.floor(rule, 50)
 
 
@@ -331,6 +339,7 @@ def run(chk):
     _restore_rule(chk, prog)
     _growtharg_rule(chk, prog)
     _ensuresum_rule(chk, prog)
+    _capnull_rule(chk, prog)
     from jv.report import must_fire
     must_fire(chk, "C04-ENSURESUM", _ensuresum_rule, "c04_ensuresum.c", ["bad_product", "bad_sum"])
 
@@ -690,3 +699,105 @@ def _index_rule(chk, prog):
                 S = T(S, n)
     if total < 12:
         raise AnalysisBroken("value.c: only %d variable subscripts of container storage analysed" % total)
+
+
+# functions after which the container itself is gone: what its capacity field says no longer matters
+CAPNULL_DYING = {
+    "janet_buffer_deinit": "the buffer is being destroyed",
+    "janet_table_deinit": "the table is being destroyed",
+    "janet_q_deinit": "the queue is being destroyed",
+    "janet_deinit_block": "the collector is freeing the object that owns the storage",
+}
+
+
+def _capnull_rule(chk, prog):
+    """A growable container trusts its capacity: ensure() returns without allocating when the wanted size fits, and
+    the element store that follows writes through data.  Whoever releases data, or stores a pointer that may be NULL
+    there, therefore has to leave capacity 0 on the same path - otherwise the next in-range push writes through NULL
+    or into freed memory."""
+    rule = "C04-CAPNULL"
+    chk.rule(rule, "a path that frees a container's storage or stores a possibly-NULL pointer in data also leaves its capacity 0 (or installs new storage)")
+    RECS = ("JanetArray", "JanetBuffer", "JanetTable", "JanetQueue")
+    n = 0
+    for fn in prog.all_funcs():
+        def dstore(x):
+            if x.k == "asg" and x.op == "=" and x.kids[0].k == "mem" and x.kids[0].rec in RECS and x.kids[0].field in ("data", "capacity"):
+                return x.kids[0].kids[0].text(), x.kids[0].field, strip_casts(x.kids[1])
+            return None
+        def dfree(x):
+            if x.k == "call" and x.callee in ("janet_free", "free") and x.args:
+                a = strip_casts(x.args[0])
+                if a.k == "mem" and a.field == "data" and a.rec in RECS:
+                    return a.kids[0].text()
+            return None
+        ev = [x for x in fn.nodes if dfree(x) or (dstore(x) and dstore(x)[1] == "data")]
+        if not ev:
+            continue
+        def is_null(e, st):
+            return (e.k == "int" and e.v == 0) or e.text() in ("NULL", "((void *)0)") or (e.k == "ref" and ("null:" + e.name) in st)
+
+        def transfer(st, x):
+            if x.k == "vardecl" and x.kids:
+                st = st - {"null:" + x.name}
+                if is_null(strip_casts(x.kids[0]), st):
+                    st = st | {"null:" + x.name}
+                return st
+            if x.k == "asg" and x.op == "=" and x.kids[0].k == "ref":
+                st = st - {"null:" + x.kids[0].name, "le0:" + x.kids[0].name}
+                if is_null(strip_casts(x.kids[1]), st):
+                    st = st | {"null:" + x.kids[0].name}
+                return st
+            f = dfree(x)
+            if f:
+                return st | {"nodata:" + f}
+            d = dstore(x)
+            if d:
+                lv, field, rhs = d
+                if field == "data":
+                    if is_null(rhs, st):
+                        return st | {"nodata:" + lv, "at:%s:%d" % (lv, x.id)}
+                    return st - {"nodata:" + lv}
+                if (rhs.k == "int" and rhs.v == 0) or (rhs.k == "ref" and ("le0:" + rhs.name) in st):
+                    return st | {"cap0:" + lv}
+                return st - {"cap0:" + lv}
+            return st
+
+        def edge(st, blk, succ, cond, truth):
+            c = flow.compare_of(cond, truth)
+            if c is None:
+                return st
+            l, op, r = c
+            l = strip_casts(l)
+            if l.k == "ref" and (r is None or is_null(strip_casts(r), frozenset())):
+                if op == "!=":
+                    return st - {"null:" + l.name}
+                if op == "==" and ("null:" + l.name) not in st:
+                    return st | {"null:" + l.name}
+            if l.k == "ref" and r is not None and strip_casts(r).k == "int" and strip_casts(r).v == 0 and op in ("<=", "=="):
+                return st | {"le0:" + l.name}       # the size a constructor was asked for is not positive: no storage, capacity <= 0
+            # `if (x->capacity)`-style knowledge is not tracked: capacity must be stored
+            return st
+        IN, OUT, T = flow.forward_paths(fn, frozenset(), transfer, edge)
+        chk.analysed(fn)
+        n += 1
+        chk.instance(rule)
+        if fn.name in CAPNULL_DYING:
+            chk.exception(rule, fn.name, CAPNULL_DYING[fn.name])
+            continue
+        bad = None
+        for b, kind in flow.exits(fn):
+            if kind != "return" or b.id not in OUT:
+                continue
+            for st in OUT[b.id]:
+                for t in st:
+                    if t.startswith("nodata:") and ("cap0:" + t[7:]) not in st:
+                        bad = (t[7:], b)
+        if bad is None:
+            chk.ok(rule, "%s: storage released / nulled only together with capacity 0 or replaced" % fn.name)
+        else:
+            lv, b = bad
+            site = next((x for x in ev if (dfree(x) == lv) or (dstore(x) and dstore(x)[0] == lv)), ev[0])
+            chk.violation(rule, fn.tu.name, fn.name, "data:" + lv, site.loc,
+                          "%s can return with `%s->data` released or possibly NULL while `%s->capacity` was not set to 0 on that path: "
+                          "the next ensure() sees room and the following in-range store writes through NULL / freed memory" % (fn.name, lv, lv))
+    chk.floor(rule, 6, n)
